@@ -11,14 +11,14 @@ def exCompile : CfgId → Src → Option CfgArt
     match S "default" with
     | none => none
     | some ct => some
-        { stamps := [("default", ct.2), ("default.custom", timeOf S "default.custom")]
+        { stamps := [("default", recorded ct.2), ("default.custom", stampOf S "default.custom")]
           inputs := [("default", some ct.1), ("default.custom", (S "default.custom").map (·.1))]
           schemaList := some ["sa", "sb"], dict := none, prism := "", packs := [], deps := [] }
   | .schema sid, S =>
     match S (sid ++ ".schema") with
     | none => none
     | some ct => some
-        { stamps := [(sid ++ ".schema", ct.2)]
+        { stamps := [(sid ++ ".schema", recorded ct.2)]
           inputs := [(sid ++ ".schema", some ct.1)]
           schemaList := none
           dict := some (if sid = "sa" then "da" else "db")
@@ -39,19 +39,42 @@ def exE : Env ExK :=
     zero := (none, [])
     fck := fun a => (some a, []) }
 
-/-- an earlier state of the sources: `sa.schema.yaml` had content 7 and mtime 9 -/
+/-- an earlier state of the sources: `sa.schema.yaml` had content 7 and mtime 9; `sb.schema.yaml` is dated
+    2040-01-01T00:00:12Z (recorded as the negative `int` -2085978484 by the 32-bit variant, as itself by the 64-bit one) -/
 def exS0 : Src := fun r =>
   if r = "default" then some (1, 10) else if r = "sa.schema" then some (7, 9)
-  else if r = "sb.schema" then some (3, 12) else none
+  else if r = "sb.schema" then some (3, 2208988812) else none
 
 /-- the current sources: `sa.schema.yaml` was edited (content 2, mtime 11) -/
 def exS : Src := fun r =>
   if r = "default" then some (1, 10) else if r = "sa.schema" then some (2, 11)
-  else if r = "sb.schema" then some (3, 12) else none
+  else if r = "sb.schema" then some (3, 2208988812) else none
 
-def exCat : Rid → Time → Content := fun _ t => if t = 9 then 7 else t - 9
+def exCat : Rid → Stamp → Content := fun _ t => if t = 9 then 7 else if t = 10 then 1 else if t = 11 then 2 else 3
 
 /-! ### the example meets every hypothesis of the C12 theorems -/
+
+theorem seen_some {S S' : Src} {r : Rid} {ct : Content × Time} (hs : S r = some ct) (h : seen S' r = seen S r) :
+    ∃ ct', S' r = some ct' ∧ ct'.1 = ct.1 ∧ recorded ct'.2 = recorded ct.2 := by
+  unfold seen at h
+  rw [hs] at h
+  cases hs' : S' r with
+  | none => rw [hs'] at h; simp at h
+  | some ct' =>
+    rw [hs'] at h
+    simp only [Option.map_some, Option.some.injEq, Prod.mk.injEq] at h
+    exact ⟨ct', rfl, h.1, h.2⟩
+
+theorem seen_fst {S S' : Src} {r : Rid} (h : seen S' r = seen S r) : (S' r).map (·.1) = (S r).map (·.1) := by
+  unfold seen at h
+  cases hs : S r <;> cases hs' : S' r <;> rw [hs, hs'] at h <;> simp at h ⊢
+  exact h.1
+
+theorem seen_stampOf {S S' : Src} {r : Rid} (h : seen S' r = seen S r) : stampOf S' r = stampOf S r := by
+  unfold seen at h
+  unfold stampOf
+  cases hs : S r <;> cases hs' : S' r <;> rw [hs, hs'] at h <;> simp at h ⊢
+  exact h.2
 
 theorem exCompilerOK : CompilerOK exE := by
   constructor
@@ -65,7 +88,7 @@ theorem exCompilerOK : CompilerOK exE := by
         rw [hs] at h
         cases h
         simp only [List.mem_cons, List.not_mem_nil, or_false] at hp
-        rcases hp with e | e <;> subst e <;> simp [timeOf, hs]
+        rcases hp with e | e <;> subst e <;> simp [stampOf, hs]
     | schema sid =>
       simp only [exE, exCompile] at h
       cases hs : S (sid ++ ".schema") with
@@ -75,7 +98,7 @@ theorem exCompilerOK : CompilerOK exE := by
         cases h
         simp only [List.mem_cons, List.not_mem_nil, or_false] at hp
         subst hp
-        simp [timeOf, hs]
+        simp [stampOf, hs]
   · intro id S S' a h hag
     cases id with
     | default =>
@@ -85,10 +108,11 @@ theorem exCompilerOK : CompilerOK exE := by
       | some ct =>
         rw [hs] at h
         cases h
-        have h1 := hag ("default", ct.2) (by simp)
-        have h2 := hag ("default.custom", timeOf S "default.custom") (by simp)
+        have h1 := hag ("default", recorded ct.2) (by simp)
+        have h2 := hag ("default.custom", stampOf S "default.custom") (by simp)
         simp only at h1 h2
-        simp [h1, h2, hs, timeOf]
+        obtain ⟨ct', hs', e1, e2⟩ := seen_some hs h1
+        simp [hs', e1, e2, seen_fst h2, seen_stampOf h2]
     | schema sid =>
       simp only [exE, exCompile] at h ⊢
       cases hs : S (sid ++ ".schema") with
@@ -96,9 +120,10 @@ theorem exCompilerOK : CompilerOK exE := by
       | some ct =>
         rw [hs] at h
         cases h
-        have h1 := hag (sid ++ ".schema", ct.2) (by simp)
+        have h1 := hag (sid ++ ".schema", recorded ct.2) (by simp)
         simp only at h1
-        simp [h1, hs]
+        obtain ⟨ct', hs', e1, e2⟩ := seen_some hs h1
+        simp [hs', e1, e2]
 
 theorem exCkOK : CkOK exE := by
   constructor
@@ -134,7 +159,7 @@ theorem exBuildOK (S : Src) (h : S = exS ∨ S = exS0) (sid : String) (hs : sid 
     rcases h with h | h <;> subst h <;> rcases hs with e | e <;> subst e <;> simp [exS, exS0]
   obtain ⟨ct, hct⟩ := hsome
   have hcomp : exE.compile (.schema sid) S = some
-      { stamps := [(sid ++ ".schema", ct.snd)], inputs := [(sid ++ ".schema", some ct.fst)], schemaList := none,
+      { stamps := [(sid ++ ".schema", recorded ct.snd)], inputs := [(sid ++ ".schema", some ct.fst)], schemaList := none,
         dict := some (if sid = "sa" then "da" else "db"), prism := sid, packs := if sid = "sa" then ["pk"] else [],
         deps := if sid = "sa" then ["sb"] else [] } := by
     simp only [exE, exCompile, hct]
@@ -150,7 +175,7 @@ theorem exSourcesOK (S : Src) (h : S = exS ∨ S = exS0) : SourcesOK exE S := by
   have hd : ∃ ct, S "default" = some ct := by rcases h with h | h <;> subst h <;> simp [exS, exS0]
   obtain ⟨ct, hct⟩ := hd
   have hcomp : exE.compile .default S = some
-      { stamps := [("default", ct.2), ("default.custom", timeOf S "default.custom")]
+      { stamps := [("default", recorded ct.2), ("default.custom", stampOf S "default.custom")]
         inputs := [("default", some ct.1), ("default.custom", (S "default.custom").map (·.1))]
         schemaList := some ["sa", "sb"], dict := none, prism := "", packs := [], deps := [] } := by
     simp only [exE, exCompile, hct]
